@@ -1,25 +1,7 @@
-use crate::formats::*;
-use crate::rig::{self, VAsset};
-use rustzx_core::host::Snapshot;
 pub fn run() {
-    for m128 in [false, true] {
-        let s = crate::checks::c14::state(m128, 4);
-        let mut out = Vec::new();
-        for k in 0..2 {
-            let mut e = crate::checks::c13::machine(m128);
-            if k == 0 {
-                let f = if m128 { sna128(&s) } else { sna48(&s) };
-                e.load_snapshot(Snapshot::Sna(VAsset::new(f))).ok().unwrap();
-            } else {
-                e.load_snapshot(Snapshot::Szx(VAsset::new(szx(&s, &SzxOpts::default())))).ok().unwrap();
-            }
-            let f0 = e.verif_total_frames();
-            while e.verif_total_frames() < f0 + 3 { rig::step(&mut e); }
-            out.push((rig::regs_view(e.verif_cpu()), crate::checks::c13::all_ram(&e, m128), rig::canvas(&e).pix.clone(), rig::border(&e).pix.clone()));
-        }
-        println!("m128={} regs equal {} ; {:x?} / {:x?}", m128, out[0].0 == out[1].0, out[0].0, out[1].0);
-        for b in 0..out[0].1.len() { if out[0].1[b] != out[1].1[b] { let o=(0..16384).find(|o| out[0].1[b][*o]!=out[1].1[b][*o]).unwrap(); println!("  ram page {} differs at {:04x}: {:02x} vs {:02x}", b, o, out[0].1[b][o], out[1].1[b][o]); } }
-        println!("  canvas equal {} border equal {}", out[0].2 == out[1].2, out[0].3 == out[1].3);
-        if out[0].3 != out[1].3 { let i=(0..out[0].3.len()).find(|i| out[0].3[*i]!=out[1].3[*i]).unwrap(); println!("   border first diff at ({}, {}) {} vs {}", i%320, i/320, out[0].3[i], out[1].3[i]); }
-    }
+    std::panic::set_hook(Box::new(|i| { println!("PANIC at {:?}: {}", i.location(), i); }));
+    let mut d = crate::rig::read_file("/repo/vtx/src/test/secret.vtx");
+    d[75] = 0;
+    let r = std::panic::catch_unwind(|| vtx::Vtx::load(std::io::Cursor::new(d)).is_ok());
+    println!("{:?}", r.is_ok());
 }
